@@ -2,25 +2,54 @@
 from props import ModuleCheck, T, bundled
 
 MT_CLAUSES = ["C15_Sum", "C15_Transfer", "C15_Burn", "C15_Range", "C15_Authority", "C15_FreshIds",
-              "Rejected_NoEffect"]
+              "Rejected_NoEffect",
+              # round 7: balances of EVERY address in the raw store add up to the recorded supply; what the
+              # supply and balances queries answer is what the store holds
+              "C15_StoreSum", "C15_Reported"]
+
+# negative probing / unusual inputs (round 7): antecedents exercised on every run by scenarios/mt_probe.ndjson
+# (written by scenarios/mt_mk_probe.py)
+MT_PROBE_REQUIRED = [
+    "form_split_rej", "form_idupper_rej", "form_idprefix_rej", "form_idspace_rej", "form_idspace_mint_ok",
+    "form_idspace_mint_new_ok", "form_clsupper_rej", "form_clsprefix_rej", "form_clsspace_rej",
+    "form_owner_mint_rej", "form_holder_transfer_rej", "form_holder_burn_rej",
+    "other_class_mint_rej", "other_class_edit_rej", "other_class_transfer_rej", "other_class_burn_rej",
+    "no_class_rej", "no_mt_mint_rej", "no_mt_edit_rej",
+    "module_sender_rej", "mint_to_module_ok", "transfer_to_module_ok", "handover_to_module_ok",
+    "module_held_rej", "zero_amount_mint_rej", "zero_amount_transfer_rej", "zero_amount_burn_rej",
+    "transfer_one_above_rej", "burn_one_above_rej", "burn_all_ok", "transfer_all_to_holder_ok",
+    "transfer_to_zero_holder_ok", "exholder_transfer_rej", "exholder_burn_rej", "never_holder_transfer_rej",
+    "burned_out_mint_ok", "burned_out_edit_ok", "burned_out_transfer_rej", "burned_out_burn_rej",
+    "holder_not_owner_mint_rej", "holder_not_owner_edit_rej", "holder_not_owner_handover_rej",
+    "owner_not_holder_transfer_rej", "owner_not_holder_burn_rej", "exowner_edit_rej", "exowner_handover_rej",
+    "exowner_still_holder_transfer_ok", "handover_to_self_ok", "mint_data_on_existing_rej", "issue_blank_name_rej",
+    "mint_default_recipient_ok", "second_class_same_owner_ok", "probe_state_rej"]
 
 # Magnitude strata: every history runs under one amount map  real a*2^base + v <-> model a'*H + v
 # (harness/cmd/mt); base 63 is the default.  The other bases put the word boundaries 2^31, 2^32,
 # 2^53, 2^62 (and sums crossing 2^64) under the same clauses.
 MT_BASES = [("31", "h18"), ("32", "h18"), ("53", "h18"), ("62", "h27")]
-MT_RND = T([dict(n=10, len=30, procs=6, cfg="users=3"), dict(n=6, len=40, procs=2, cfg="users=4")]
+# random histories mix "sensible" events with probes (every message x token state x role x ids written the wrong way,
+# harness/cmd/mt/random.go; probe=<pct>, default 30)
+MT_RND = T([dict(n=10, len=30, procs=6, cfg="users=3"), dict(n=6, len=40, procs=2, cfg="users=4,probe=60")]
            + [dict(n=4, len=25, procs=1, cfg="users=3,base=" + b) for b, _ in MT_BASES],
-           [dict(n=80, len=40, procs=10, cfg="users=3"), dict(n=50, len=60, procs=4, cfg="users=4")]
+           [dict(n=80, len=40, procs=10, cfg="users=3"), dict(n=50, len=60, procs=4, cfg="users=4,probe=60")]
            + [dict(n=40, len=40, procs=2, cfg="users=3,base=" + b) for b, _ in MT_BASES])
 # multi-message transactions (runs of one signer's messages delivered as one real transaction)
 bundled(MT_RND)
-MT_GEN = T([dict(cfg="GEN_MT.cfg", num=10, depth=16, seeds=6)]
+# second generator mode (round 7, negative probing): GenSpecP with ids written the wrong way and the module account;
+# every behaviour ends with four events the specification REJECTS; the replay's epilogue (every holding the REAL store
+# records moved as a whole to the next user, then everybody burns everything, every class handed over) follows up
+MT_GEN = T([dict(cfg="GEN_MT.cfg", num=10, depth=16, seeds=5),
+            dict(cfg="GEN_MT_probe.cfg", num=5, depth=22, seeds=3)]
            + [dict(cfg="GEN_MT_%s.cfg" % h, num=6, depth=16, seeds=1, driver_cfg="users=3,base=" + b) for b, h in MT_BASES],
-           [dict(cfg="GEN_MT.cfg", num=60, depth=20, seeds=14)]
+           [dict(cfg="GEN_MT.cfg", num=60, depth=20, seeds=14),
+            dict(cfg="GEN_MT_probe.cfg", num=30, depth=26, seeds=6), dict(cfg="GEN_MT_probe.cfg", num=30, depth=16, seeds=3)]
            + [dict(cfg="GEN_MT_%s.cfg" % h, num=40, depth=20, seeds=3, driver_cfg="users=3,base=" + b) for b, h in MT_BASES])
 MT_MC = T([dict(cfg="MC_MT.cfg", timeout=900, heap="4g"), dict(cfg="MC_MT_2.cfg", timeout=900, heap="4g")],
           [dict(cfg="MC_MT.cfg", timeout=1700, heap="4g"), dict(cfg="MC_MT_big.cfg", timeout=3400, heap="4g")])
-MT_SCN = [dict(file="scenarios/mt_coverage.ndjson", cfg="users=3")] + \
+MT_SCN = [dict(file="scenarios/mt_coverage.ndjson", cfg="users=3"),
+          dict(file="scenarios/mt_probe.ndjson", cfg="users=3"), dict(file="scenarios/mt_probe.ndjson", cfg="users=3,base=32")] + \
          [dict(file="scenarios/mt_coverage_%s.ndjson" % h, cfg="users=3,base=" + b) for b, h in MT_BASES]
 
 # histories recorded (VERIF_RECORD_DIR) for the cross-module checks C11 / C12
@@ -34,11 +63,13 @@ PROPS = {
                                  "transfer_ok", "transfer_self", "transfer_insufficient_rej", "transfer_big",
                                  "transfer_all", "burn_ok", "burn_insufficient_rej", "burn_to_zero", "burn_big",
                                  "handover_ok", "handover_stranger_rej", "old_owner_mint_rej", "new_owner_mint_ok"]
+                                + MT_PROBE_REQUIRED
                                 + ["base%s_%s" % (b, op) for b in ("31", "32", "53", "62", "63")
                                    for op in ("mint", "transfer", "burn", "overflow_rej")],
                        gen_cfg="users=3",
                        assumptions=["TLC 1.8, SANY, CommunityModules Json", "Go toolchain, cosmos-sdk baseapp",
                                     "harness projection through the module's queries and getters",
+                                    "harness scan of the mt store (types/keys.go key layout) for C15_StoreSum / C15_Reported",
                                     "amount maps a*2^base+v <-> a'*H+v per history (base 31, 32, 53, 62, 63), exact on the driven amounts",
                                     "ids named in order of first appearance (opaque)"]),
 }
@@ -56,7 +87,15 @@ TEXT = {
              "2^64-6, 2^64-2, 2^64-1) and seeded random histories (exact fit / one too many mints, balance+-1 "
              "transfers and burns, strangers, self transfers, handover then mint) are executed on the real "
              "application; after every transaction the harness queries Denoms, MTs, MT, Balances and the "
-             "getters; TLC validates every event against the clauses (verdict) and the step function (drift).",
+             "getters; TLC validates every event against the clauses (verdict) and the step function (drift). "
+             "Round 7 (negative probing): the store itself is scanned after every event - the balances of EVERY "
+             "address (not only the tracked accounts) must add up to the recorded supply (StoreSum) and the supply / "
+             "balances queries, read page by page, must answer what the store holds (Reported); drivers probe every "
+             "message x token state (holders at zero, burned out, minted to the top, under another class only) x "
+             "role (owner, previous owner, holder, previous holder, stranger, module account) x ids written the "
+             "wrong way (upper case, cut short, between blanks, re-split at the key delimiter) with amounts 0 / the "
+             "balance / one above it; a second generator mode ends every behaviour with four rejected events; an "
+             "epilogue computed from the real store (whole holdings moved, then everything burned) closes every history.",
         note="Magnitude strata: every history runs under one amount map real a*2^base+v <-> model a'*H+v "
              "(base 63 default; scenario + random + TLC-generated histories also under base 31, 32, 53, 62, "
              "antecedents base<b>_mint/transfer/burn/overflow_rej required), exact for +, -, comparisons and "
